@@ -329,6 +329,189 @@ WaitLaw(fn, chans, ctxDone, ret) ==
      /\ ret \in {"nil", "ctx", "timeout"}
 
 ---------------------------------------------------------------------------
+(* Part 3b: the ASYNC helpers AddAsync / Add1Async / EvAddAsync / EvAdd1Async *)
+(* (help.go:129-176): "adds the initial states and waits for the wait state   *)
+(* to become active".  Unlike the Sync helpers their answer depends on WHEN   *)
+(* the awaited activation happens relative to the helper's own steps, so the  *)
+(* helper is modelled step by step against an environment:                    *)
+(*                                                                            *)
+(*   helper   Bind    read the wait state's tick, subscribe to its next       *)
+(*                    activation (WhenTicks(w, NextActiveIn(tick)))           *)
+(*            Mutate  EvAdd(addStates): refused at once (veto / disposed),    *)
+(*                    executed at once (the whole queue drain runs inside the *)
+(*                    call), or queued behind a running transition            *)
+(*            Wait    select { when -> true, ctx.Done -> false }              *)
+(*   env      Release   the running transition ends, the queue is drained     *)
+(*            LaterAct  another goroutine (re)activates / de-activates the    *)
+(*                      wait state                                            *)
+(*            CtxExpire the live ctx ends (only once the helper had every     *)
+(*                      chance to see what the environment did)               *)
+(*                                                                            *)
+(* A scenario fixes how the wait state W gets activated (`via`):              *)
+(*   self      W is one of the added states            (same transition)      *)
+(*   rel       an added state pulls W in by Add        (same transition)      *)
+(*   drain     a final handler of the added state adds W (same queue drain,   *)
+(*             i.e. before EvAdd returns to the helper when it runs at once)  *)
+(*   later     another goroutine (re)activates W after the mutation           *)
+(*   remove    another goroutine DE-activates W after the mutation (nothing   *)
+(*             to report: one more tick of W is not an activation)            *)
+(*   prequeued the activation is already waiting in the queue at the call     *)
+(*   never     nobody activates W                                             *)
+(* and: pre (W active before the call), multi (W is a Multi state: a called   *)
+(* activation of an active W ticks by 2), mode (direct / queued / disposed),  *)
+(* veto (a negotiation handler refuses the helper's mutation), ctx (live /    *)
+(* background / cancelled).                                                   *)
+(*                                                                            *)
+(* `order` is the order of the helper's first two steps: "bind-mutate" is the *)
+(* code, "mutate-bind" the variant the law must tell apart (it misses every   *)
+(* activation that happens inside the mutation).                              *)
+AsyncFns == {"AddAsync", "Add1Async", "EvAddAsync", "EvAdd1Async"}
+AsyncVias == {"self", "rel", "drain", "later", "remove", "prequeued", "never"}
+AsyncModes == {"direct", "queued", "disposed"}
+AsyncCtxs == {"live", "background", "cancelled"}
+AsyncOrders == {"bind-mutate", "mutate-bind"}
+
+AsyncScenarios ==
+  {sc \in [via : AsyncVias, pre : BOOLEAN, multi : BOOLEAN, mode : AsyncModes,
+           veto : BOOLEAN, ctx : AsyncCtxs] :
+     /\ sc.via = "prequeued" => sc.mode = "queued"
+     /\ sc.mode = "disposed" => sc.via = "never" /\ ~sc.veto /\ ~sc.pre /\ ~sc.multi}
+
+(* activations a tick stands for: 0 -> 0, 1, 2 -> 1, 3, 4 -> 2                *)
+Acts(tick) == (tick + 1) \div 2
+NewAct(from, to) == Acts(to) > Acts(from)
+
+(* transition.go:130-150: an inactive target state ticks by 1; an active      *)
+(* Multi state ticks by 2 only when it is CALLED (not when a relation pulls   *)
+(* it in); an active plain state does not tick                                *)
+Bump(tick, multi, called) ==
+  IF ~Active(tick) THEN tick + 1 ELSE IF multi /\ called THEN tick + 2 ELSE tick
+(* what "another goroutine" does: a new activation whatever the state is --   *)
+(* Add1(W), preceded by Remove1(W) when a plain W is active                   *)
+Cycle(tick) == IF ~Active(tick) THEN tick + 1 ELSE tick + 2
+
+(* what the other goroutine does once the helper's mutation is through        *)
+AfterEffect(sc, tick) ==
+  CASE sc.via = "later" -> Cycle(tick)
+    [] sc.via = "remove" -> IF Active(tick) THEN tick + 1 ELSE tick
+    [] OTHER -> tick
+
+(* the helper's own mutation, with everything its queue drain carries         *)
+MutTx(sc, tick) ==
+  IF sc.veto THEN tick
+  ELSE LET t1 == CASE sc.via = "self" -> Bump(tick, sc.multi, TRUE)
+                   [] sc.via = "rel" -> Bump(tick, sc.multi, FALSE)
+                   [] OTHER -> tick
+       IN IF sc.via = "drain" THEN Bump(t1, sc.multi, TRUE) ELSE t1
+
+(* helper state: pc, tick (of W, the machine's), t0 (tick at the call),       *)
+(* target (tick the subscription waits for), closed (WhenTicks handed out the *)
+(* closed channel), pend (the mutation sits in the queue), muted (it has been *)
+(* processed), acted (LaterAct done), ctxdone, te (tick when the ctx ended),  *)
+(* cancel (the mutation was refused inside EvAdd), ret                        *)
+AsyncInit(order, sc) ==
+  LET t == IF sc.pre THEN 1 ELSE 0 IN
+  [pc |-> IF order = "bind-mutate" THEN "bind" ELSE "mutate",
+   tick |-> t, t0 |-> t, target |-> 0, closed |-> FALSE, pend |-> FALSE, muted |-> FALSE,
+   acted |-> FALSE, ctxdone |-> (sc.ctx = "cancelled"), te |-> t, cancel |-> FALSE,
+   ret |-> "none"]
+
+AsyncAfter(order, pc) ==
+  IF order = "bind-mutate" THEN (IF pc = "bind" THEN "mutate" ELSE "wait")
+  ELSE (IF pc = "mutate" THEN "bind" ELSE "wait")
+
+(* machine.go:602-645: a disposed machine and an expired ctx get the closed   *)
+(* channel                                                                    *)
+AsyncBind(order, sc, h) ==
+  IF h.pc # "bind" THEN {} ELSE
+  {[h EXCEPT !.target = h.tick + (IF Active(h.tick) THEN 2 ELSE 1),
+             !.closed = (sc.mode = "disposed" \/ h.ctxdone),
+             !.pc = AsyncAfter(order, "bind")]}
+
+AsyncMutate(order, sc, h) ==
+  IF h.pc # "mutate" THEN {} ELSE
+  CASE sc.mode = "disposed" \/ (sc.mode = "direct" /\ sc.veto) ->
+         {[h EXCEPT !.cancel = TRUE, !.ret = "false", !.pc = "done"]}
+    [] sc.mode = "direct" ->
+         {[h EXCEPT !.tick = MutTx(sc, h.tick), !.muted = TRUE, !.pc = AsyncAfter(order, "mutate")]}
+    [] OTHER ->
+         {[h EXCEPT !.pend = TRUE, !.pc = AsyncAfter(order, "mutate")]}
+
+AsyncWhenReady(h) == h.closed \/ (h.target # 0 /\ h.tick >= h.target)
+
+AsyncWait(sc, h) ==
+  IF h.pc # "wait" THEN {} ELSE
+  {[h EXCEPT !.ret = r, !.pc = "done"] :
+     r \in (IF AsyncWhenReady(h) THEN {"true"} ELSE {}) \cup (IF h.ctxdone THEN {"false"} ELSE {})}
+
+(* the queue in front of / behind the helper's mutation is drained in one go  *)
+AsyncRelease(sc, h) ==
+  IF ~(sc.mode = "queued" /\ h.pend /\ h.pc # "done") THEN {} ELSE
+  LET a == IF sc.via = "prequeued" THEN Cycle(h.tick) ELSE h.tick
+      b == MutTx(sc, a)
+      c == AfterEffect(sc, b)
+  IN {[h EXCEPT !.tick = c, !.pend = FALSE, !.muted = TRUE, !.acted = TRUE]}
+
+AsyncLater(sc, h) ==
+  IF ~(sc.mode = "direct" /\ sc.via \in {"later", "remove"} /\ h.muted /\ ~h.acted /\ h.pc # "done")
+  THEN {} ELSE
+  {[h EXCEPT !.tick = AfterEffect(sc, h.tick), !.acted = TRUE]}
+
+AsyncEnvSteps(sc, h) == AsyncRelease(sc, h) \cup AsyncLater(sc, h)
+
+(* premise of the binding: the live ctx outlives everything the environment   *)
+(* does and gives the waiting helper time to see it                           *)
+AsyncExpire(sc, h) ==
+  IF ~(sc.ctx = "live" /\ ~h.ctxdone /\ h.pc = "wait" /\ ~AsyncWhenReady(h)
+       /\ AsyncEnvSteps(sc, h) = {}) THEN {} ELSE
+  {[h EXCEPT !.ctxdone = TRUE, !.te = h.tick]}
+
+AsyncSteps(order, sc, h) ==
+  AsyncBind(order, sc, h) \cup AsyncMutate(order, sc, h) \cup AsyncWait(sc, h)
+  \cup AsyncEnvSteps(sc, h) \cup AsyncExpire(sc, h)
+
+(* nothing can happen any more and the helper has not returned                *)
+AsyncSucc(order, sc, h) ==
+  IF h.pc = "done" THEN {}
+  ELSE IF AsyncSteps(order, sc, h) = {} THEN {[h EXCEPT !.ret = "blocked", !.pc = "done"]}
+  ELSE AsyncSteps(order, sc, h)
+
+RECURSIVE AsyncReach(_, _, _)
+AsyncReach(order, sc, h) ==
+  IF h.pc = "done" THEN {h} ELSE UNION {AsyncReach(order, sc, g) : g \in AsyncSucc(order, sc, h)}
+
+(* what the helper can answer, with the tick of W it leaves behind            *)
+AsyncOutcomes(order, sc) ==
+  {<<h.ret, h.tick>> : h \in AsyncReach(order, sc, AsyncInit(order, sc))}
+
+(* THE PROPERTY: "return according to what actually happened to the machine"  *)
+(* and "no exported function blocks forever", over what was OBSERVED:         *)
+(*   t0 / t1  tick of W at the call / at the return (or when given up)        *)
+(*   te       tick of W when the ctx ended (= t1 when it did not)             *)
+(*   cancel   the helper's mutation was refused inside the call               *)
+(*   expired  the ctx ended before the helper returned                        *)
+(* - true  only if the mutation was not refused and W got a new activation    *)
+(*         since the call (weak reading: or is active at the return -- the    *)
+(*         code insists on a NEW activation of a W that was active before,    *)
+(*         "waits for the state to become active" does not);                  *)
+(* - false only if the mutation was refused, or the ctx ended and W had no    *)
+(*         new activation by then;                                            *)
+(* - not returning is only acceptable on a ctx that never ends while W has    *)
+(*   not been activated (there is nothing to report yet).                     *)
+(* Weak reading: a ctx that is ALREADY cancelled is outside "nil or live      *)
+(* context": the helper must return, either answer is accepted.               *)
+AsyncLaw(sc, o, ret) ==
+  /\ ret \in {"true", "false", "blocked"}
+  /\ sc.ctx = "cancelled" => ret # "blocked"
+  /\ sc.ctx # "cancelled" =>
+       /\ ret = "true" => ~o.cancel /\ (NewAct(o.t0, o.t1) \/ Active(o.t1))
+       /\ ret = "false" => o.cancel \/ (o.expired /\ ~NewAct(o.t0, o.te))
+       /\ ret = "blocked" => sc.ctx = "background" /\ ~o.cancel /\ ~NewAct(o.t0, o.t1)
+
+AsyncObs(h) == [t0 |-> h.t0, t1 |-> h.tick, te |-> IF h.ctxdone THEN h.te ELSE h.tick,
+                cancel |-> h.cancel, expired |-> h.ctxdone]
+
+---------------------------------------------------------------------------
 (* Part 4: totality.  Lifecycle phases and argument classes the sweep must    *)
 (* cover; every call must return ("ok").                                      *)
 Phases == {"fresh", "midqueue", "inhandler", "errored", "setschema", "disposed"}
